@@ -372,9 +372,66 @@ class FaultSched(explore.Harness):
         return "ok", None
 
 
+# ---------------------------------------------------------------------------------------------------------------
+# "an exception in any plugin or saver": the fault is an exception raised by a plugin's compute, by a chunk write
+# (strax.save_file), by a chunk read, or the consumer abandoning the iterator - at every (stage, chunk) position of
+# C06's cell catalogue - instead of a failing file-system operation.  Threaded cells are explored over schedules
+# (delay-bounded); the oracle is the storage post-condition only (what the caller sees is C06's business).
+def pipe_cells():
+    from vlib.checks import c06
+
+    return [c for c in c06.cells() if c[3] is not None or c[4][0] == "close"]
+
+
+def _pipe_harness(pc):
+    from vlib.checks import c06
+
+    class HS(c06.H):
+        def final(self, s):
+            key, _ = super().final(s)
+            if s.deadlock or self.obs["live_at_return"]:
+                return key, None  # files may still be in flux; hangs are C06's property
+            v = self.storage_verdict()
+            return key + (self.obs.get("stored_after"),), v
+
+    return HS(pc)
+
+
+def run_pipe_job(job):
+    from vlib import pipe
+    from vlib.checks import c06
+
+    _, i, bound, processor = job
+    res = Result()
+    cell = pipe_cells()[i]
+    pc = c06.mk_case(cell, processor)
+    with warnings.catch_warnings():
+        warnings.simplefilter("ignore")
+        r = explore.explore(lambda: _pipe_harness(pc), regime="delay", bound=bound, hashing=False, max_execs=20000)
+    res.evals += r.executions
+    res.count("pipe_fault_cells")
+    res.count("pipe_fault_executions", r.executions)
+    res.nt("pipe", i, processor, bound)
+    res.add_set("pipe_storage_outcomes", tuple(sorted(map(repr, r.outcomes)))[:4])
+    if r.cap_hit:
+        res.caps_hit.append(f"pipe cell {i}: {r.cap_hit}")
+    for k, msg, choices in r.violations[:3]:
+        if not msg.startswith("STORAGE"):
+            continue
+        what = msg.split(":")[0].replace("STORAGE ", "")
+        res.violation(f"pipe:{what}:{processor}:{c06.stage(cell)}", f"{cell} [{processor}, delay bound {bound}]: {msg}"[:400], dict(pipe_cell=pc.key(), choices=choices))
+    return res
+
+
 def plan(tier, seed):
     S = scenarios(tier)
     jobs = []
+    PC = pipe_cells()
+    for i, cell in enumerate(PC):
+        if cell[2] == "eager":
+            jobs.append(("pipe", i, 0, "single_thread"))
+        b = 1 if (tier == "thorough" or (i + seed) % 3 == 0) else 0
+        jobs.append(("pipe", i, b, "threaded_mailbox"))
     if tier == "thorough":
         for si, sc in enumerate(S):
             if sc.threaded and not getattr(sc, "inline", False):
@@ -391,6 +448,9 @@ def plan(tier, seed):
 
 
 def worker_init():
+    from vlib import pipe
+
+    pipe.install()
     vsched.install()
     fsfault.install()
     g.quiet()
@@ -400,6 +460,9 @@ def worker_init():
 
 
 def run_job(job):
+    if job[0] == "pipe":
+        fsfault.ST.reset()
+        return run_pipe_job(job)
     kind, si, sh, nsh, tier, seed = job
     res = Result()
     sc = scenarios(tier)[si]
@@ -458,6 +521,17 @@ def run_job(job):
 def replay(case):
     worker_init()
     res = Result()
+    if case.get("pipe_cell") is not None:
+        from vlib import pipe
+
+        pc = pipe.PipeCase.from_key(case["pipe_cell"])
+        out = []
+        for _ in range(2):
+            h, s_, info = explore.replay(lambda: _pipe_harness(pc), case["choices"])
+            out.append(h.final(s_)[1])
+        if out[0] != out[1]:
+            raise vsched.HarnessError(f"replay not deterministic: {out}")
+        return [dict(fingerprint="pipe:replay", what=out[0])] if out[0] else []
     tier = "thorough"
     sc = scenarios(tier)[case["scenario"]]
     assert sc.name == case["name"], (sc.name, case["name"])
@@ -476,6 +550,8 @@ def replay(case):
 
 
 def sanity(total, tier):
+    if total.counters.get("pipe_fault_cells", 0) < 30:
+        return "fewer than 30 plugin / saver / loader / abandon fault cells"
     if len(total.sets.get("op_kinds_faulted", ())) < 4:
         return f"only op kinds {sorted(total.sets.get('op_kinds_faulted', ()))} were faulted"
     if total.maxes.get("ops_in_history", 0) < 20:
